@@ -543,3 +543,155 @@ fn c15_accepted_params_arith_full_width() {
         Err(e) => std::mem::forget(e),
     }
 }
+
+// ===========================================================================
+// try_init, post-decode.  Blake2 over the header bytes and protobuf decoding cannot be encoded; under cfg(kani) the
+// mirror skips the checksum test and takes the decoded dictionary from `injected_dictionary()` (mirror edit 3d).
+// Everything try_init does with the decoded dictionary -- absolute descriptor offsets, sizes, order, rebuild order
+// and its validation, hash length, header size, parameter conversion -- runs as written, on a dictionary whose
+// every numeric field is symbolic.
+// ===========================================================================
+pub(crate) static mut INJ: Option<dict::ChunkDictionary> = None;
+pub(crate) fn injected_dictionary() -> dict::ChunkDictionary {
+    unsafe { INJ.take().expect("harness did not inject a dictionary") }
+}
+/// reader for try_init: first read = pre-header (magic + dictionary size 4), second = 4 + 8 + 64 bytes of which the
+/// 8 bytes after the "dictionary" are the chunk data offset
+struct HeaderReader {
+    reads: usize,
+    cdo: [u8; 8],
+    asked_off: [u64; 2],
+    asked_size: [usize; 2],
+}
+static PRE: [u8; 14] = [b'B', b'I', b'T', b'A', b'1', 0, 4, 0, 0, 0, 0, 0, 0, 0];
+static mut REST: [u8; 76] = [0; 76];
+#[async_trait]
+impl ArchiveReader for HeaderReader {
+    type Error = ();
+    async fn read_at<'a>(&'a mut self, offset: u64, size: usize) -> Result<Bytes, ()> {
+        let k = self.reads;
+        self.reads += 1;
+        if k < 2 {
+            self.asked_off[k] = offset;
+            self.asked_size[k] = size;
+        }
+        if k == 0 {
+            Ok(Bytes::from_static(&PRE[..]))
+        } else if k == 1 {
+            unsafe {
+                REST[4] = self.cdo[0];
+                REST[5] = self.cdo[1];
+                REST[6] = self.cdo[2];
+                REST[7] = self.cdo[3];
+                REST[8] = self.cdo[4];
+                REST[9] = self.cdo[5];
+                REST[10] = self.cdo[6];
+                REST[11] = self.cdo[7];
+                Ok(Bytes::from_static(&REST[..]))
+            }
+        } else {
+            Err(())
+        }
+    }
+    fn read_chunks<'a>(&'a mut self, _chunks: Vec<ChunkOffset>) -> Pin<Box<dyn Stream<Item = Result<Bytes, ()>> + Send + 'a>> {
+        panic!("try_init must not read chunks")
+    }
+}
+fn try_init_post_decode(assume_no_overflow: bool) {
+    let cdo: u64 = kani::any();
+    let rel: [u64; 2] = kani::any();
+    let asz: [u32; 2] = kani::any();
+    let ssz: [u32; 2] = kani::any();
+    let order: [u32; 2] = kani::any();
+    let hl: u32 = kani::any();
+    let total: u64 = kani::any();
+    if assume_no_overflow {
+        kani::assume(cdo <= 1 << 62 && rel[0] <= 1 << 62 && rel[1] <= 1 << 62);
+    }
+    let mut descs = Vec::with_capacity(2);
+    let mut c0 = Vec::with_capacity(2);
+    c0.push(0x11u8);
+    c0.push(0x12u8);
+    let mut c1 = Vec::with_capacity(2);
+    c1.push(0x21u8);
+    c1.push(0x22u8);
+    descs.push(dict::ChunkDescriptor { checksum: c0, archive_size: asz[0], archive_offset: rel[0], source_size: ssz[0] });
+    descs.push(dict::ChunkDescriptor { checksum: c1, archive_size: asz[1], archive_offset: rel[1], source_size: ssz[1] });
+    let mut ro = Vec::with_capacity(2);
+    ro.push(order[0]);
+    ro.push(order[1]);
+    let d = dict::ChunkDictionary {
+        application_version: String::new(),
+        source_checksum: Vec::new(),
+        source_total_size: total,
+        chunker_params: Some(dict::ChunkerParameters {
+            chunk_filter_bits: 0,
+            min_chunk_size: 0,
+            max_chunk_size: 7,
+            rolling_hash_window_size: 0,
+            chunk_hash_length: hl,
+            chunking_algorithm: 2, // FixedSize(7)
+        }),
+        chunk_compression: Some(dict::ChunkCompression { compression: 0, compression_level: 0 }),
+        rebuild_order: ro,
+        chunk_descriptors: descs,
+        metadata: BTreeMap::new(),
+    };
+    unsafe {
+        INJ = Some(d);
+    }
+    let rd = HeaderReader { reads: 0, cdo: cdo.to_le_bytes(), asked_off: [0; 2], asked_size: [0; 2] };
+    let mut cx = noop_cx();
+    let r = {
+        let fut = Archive::try_init(rd);
+        tokio::pin!(fut);
+        match fut.as_mut().poll(&mut cx) {
+            Poll::Ready(r) => r,
+            Poll::Pending => panic!("pending on a ready reader"),
+        }
+    };
+    match r {
+        Ok(ar) => {
+            // only the header region was read: pre-header, then dictionary + offset + checksum
+            assert!(ar.reader.reads == 2);
+            assert!(ar.reader.asked_off[0] == 0 && ar.reader.asked_size[0] == 14);
+            assert!(ar.reader.asked_off[1] == 14 && ar.reader.asked_size[1] == 4 + 8 + 64);
+            assert!(ar.header_size() == 14 + 4 + 8 + 64);
+            assert!(ar.chunk_data_offset() == cdo);
+            // descriptors: same order as in the dictionary, sizes and checksums verbatim, absolute offset =
+            // stored chunk data offset + relative offset (nothing inferred from the header size)
+            let cds = ar.chunk_descriptors();
+            assert!(cds.len() == 2);
+            assert!(cds[0].archive_offset == cdo + rel[0] && cds[1].archive_offset == cdo + rel[1]);
+            assert!(cds[0].archive_size == asz[0] as usize && cds[1].archive_size == asz[1] as usize);
+            assert!(cds[0].source_size == ssz[0] && cds[1].source_size == ssz[1]);
+            assert!(cds[0].checksum.slice()[0] == 0x11 && cds[0].checksum.len() == 2 && cds[1].checksum.slice()[1] == 0x22);
+            // rebuild order verbatim and valid
+            assert!(order[0] < 2 && order[1] < 2);
+            assert!(ar.total_chunks() == 2);
+            assert!(ar.source_order[0] == order[0] as usize && ar.source_order[1] == order[1] as usize);
+            assert!(ar.chunk_hash_length() == hl as usize);
+            assert!(ar.total_source_size() == total);
+            kani::cover!(rel[1] < rel[0]); // stored in descending order
+            kani::cover!(order[0] == 1 && order[1] == 1);
+            std::mem::forget(ar);
+        }
+        Err(e) => {
+            // with these parameters only an out-of-range rebuild index is a reason to refuse
+            assert!(order[0] >= 2 || order[1] >= 2);
+            kani::cover!(true);
+            std::mem::forget(e);
+        }
+    }
+}
+#[kani::proof]
+#[kani::unwind(132)]
+fn c17_try_init_post_decode() {
+    try_init_post_decode(true);
+}
+/// C15: the same with unconstrained offsets: `chunk_data_offset + archive_offset` must not panic
+#[kani::proof]
+#[kani::unwind(132)]
+fn c15_try_init_offsets_any() {
+    try_init_post_decode(false);
+}
